@@ -28,7 +28,14 @@ mod children;
 mod comments;
 mod tests;
 
-fn with_indent_eoi(cond: ConditionResolver, o: PrintItems, e: EndingComments) -> PrintItems {
+/// Body of a bracket pair: the items and the comments after the last of them, either on the line of
+/// the brackets (separated from them by `padding`) or as an indented block on lines of their own
+fn with_indent_eoi(
+	cond: ConditionResolver,
+	padding: &'static str,
+	o: PrintItems,
+	e: EndingComments,
+) -> PrintItems {
 	let end_comments_items = {
 		let mut items = PrintItems::new();
 		if e.should_start_with_newline {
@@ -41,7 +48,7 @@ fn with_indent_eoi(cond: ConditionResolver, o: PrintItems, e: EndingComments) ->
 
 	let indented = with_indent(pi!(@i; nl items(items.into())));
 
-	pi!(@i; if_else("indented body", cond, items(indented))(str(" ") items(items.into())))
+	pi!(@i; if_else("indented body", cond, items(indented))(if (!padding.is_empty())(str(padding)) items(items.into())))
 }
 
 pub trait Printable {
@@ -472,6 +479,8 @@ impl Printable for ArgsDesc {
 				format_comments(&ele.inline_trivia, CommentLocation::ItemInline, &mut out);
 				if has_more {
 					p!(out, if_else("arg separator", multi_line, nl)(sonl));
+				} else {
+					p!(out, if("last arg line end", multi_line, nl));
 				}
 			}
 
@@ -491,16 +500,11 @@ impl Printable for ArgsDesc {
 			None,
 		);
 
-		let args_items = new_line_group(gen_args(children, multi_line.clone())).into_rc_path();
-		let args_indented = with_indent(pi!(@i; nl items(args_items.into())));
+		// Comments before `)` belong to the indented block, like the ones before `]` and `}`
+		let args_items = gen_args(children, multi_line.clone());
+		let args = with_indent_eoi(multi_line, "", args_items, end_comments);
 
-		p!(out, str("(") info(start));
-		p!(out, if_else("args body", multi_line, items(args_indented) nl)(items(args_items.into())));
-		if end_comments.should_start_with_newline {
-			p!(out, nl);
-		}
-		format_comments(&end_comments.trivia, CommentLocation::EndOfItems, out);
-		p!(out, str(")") info(end));
+		p!(out, str("(") info(start) items(args) str(")") info(end));
 	}
 }
 impl Printable for SliceDesc {
@@ -675,7 +679,7 @@ impl Printable for ObjBody {
 				let members_items =
 					new_line_group(gen_members(children, multi_line.clone())).into_rc_path();
 
-				let members = with_indent_eoi(multi_line, members_items.into(), end_comments);
+				let members = with_indent_eoi(multi_line, " ", members_items.into(), end_comments);
 
 				p!(out, str("{") info(start));
 				p!(out, items(members));
@@ -906,7 +910,7 @@ impl Printable for ExprArray {
 
 		let els_items = new_line_group(gen_elements(children, multi_line.clone())).into_rc_path();
 
-		let els = with_indent_eoi(multi_line, els_items.into(), end_comments);
+		let els = with_indent_eoi(multi_line, " ", els_items.into(), end_comments);
 
 		p!(out, str("[") info(start) items(els) str("]") info(end));
 	}
